@@ -490,6 +490,34 @@ class S11(Scenario):
         return [_render_tpl(self.t, {"who": "Alice"}), _render_tpl(self.t, {"who": "Bob"})]
 
 
+class S12(Scenario):
+    """two threads run render_dependencies() on two pre-rendered documents of different shape: one has no placeholders (tags go
+    to the default locations), the other has both kinds of placeholder.  Every line of the dependency post-processing is a
+    scheduling point: nothing about one call (found-a-placeholder flags, collected tags) may live outside it"""
+    name = "S12_render_dependencies_two_documents"
+    bound_quick = 1
+    bound_thorough = 2
+    extra_funcs = ("render_dependencies", "_find_default_locations", "_process_dep_declarations", "_prepare_tags_and_urls", "on_replace_match",
+                   "_insert_js_css_to_default_locations", "_postprocess_media_tags", "get_script_tag", "get_script_content")
+
+    def __init__(self):
+        self.x = _mk("s12x", "<p>x</p>", extra={"js": "console.log('x');", "css": ".x{}"})
+        self.y = _mk("s12y", "<p>y</p>", extra={"js": "console.log('y');", "css": ".y{}"})
+        self.ph = _mk("s12ph", "{% component_css_dependencies %}|{% component_js_dependencies %}")
+
+    def setup(self):
+        from django_components.dependencies import render_dependencies
+
+        self.reset_common()
+        rx = self.x.render(render_dependencies=False)
+        ry = self.y.render(render_dependencies=False)
+        rp = self.ph.render(render_dependencies=False)
+        doc_default = "<html><head><title>t</title></head><body>" + rx + "</body></html>"
+        doc_placeholders = "<html><head>" + rp + "</head><body>" + ry + "</body></html>"
+        self.reset_common()
+        return [lambda: _norm_doc(render_dependencies(doc_default)), lambda: _norm_doc(render_dependencies(doc_placeholders))]
+
+
 class S5(Scenario):
     """first use of the lazily created caches and of the component-tag subclass registry"""
     name = "S5_lazy_singletons"
@@ -621,7 +649,7 @@ def _norm_doc(html):
 
 
 # the cold-start scenarios come first: their executions are forked from this process, which must not have rendered anything yet
-SCENARIOS = {c.name: c for c in (L1a, L1b, S1, S1c, S2, S3, S3b, S3c, S4, S4b, S5, S6, S7, S8, S9, S10, S11, O1, O2, O3)}
+SCENARIOS = {c.name: c for c in (L1a, L1b, S1, S1c, S2, S3, S3b, S3c, S4, S4b, S5, S6, S7, S8, S9, S10, S11, S12, O1, O2, O3)}
 _SC = {}
 _SET = {}
 
